@@ -130,6 +130,38 @@ def long_chain_program(rng):
     return "\n".join(L) + "\n"
 
 
+def slow_convergence_program(rng):
+    """A loop whose blocks are laid out against the direction of execution (one backward jump per
+    block) and around which a value changes in stages (t0 -> t1 -> a7): the value analysis needs
+    about stages x blocks sweeps before its optimistic first guesses are all corrected - more
+    sweeps than the program has nodes."""
+    n = rng.randrange(6, 13)
+    stages = rng.choice([2, 3])
+    L = ["main:", "    li a0, 7", "    li t0, 1", "    li t1, 1", "    li a7, 1", "    j hop1", f"hop{n}:", "    ecall"]
+    if stages == 3:
+        L += ["    mv a7, t1", "    mv t1, t0"]
+    else:
+        L += ["    mv a7, t0"]
+    L += ["    li t0, 10", "    j hop1"]
+    for i in range(n - 1, 0, -1):
+        L += [f"hop{i}:", f"    j hop{i + 1}"]
+    return "\n".join(L) + "\n"
+
+
+def label_then_directive_programs(rng):
+    """A code label separated from its instruction by a directive that creates no node (`.align`, a
+    data directive in the text segment, a repeated `.text`): the label still names that instruction,
+    whether it is called, jumped to or branched to."""
+    out = []
+    for d in (".align 2", ".text", ".word 7", ".align 2\n.text"):
+        out.append(f"main:\n    li a0, 21\n    jal double\n    li a7, 1\n    ecall\n    li a7, 10\n    ecall\ndouble:\n{d}\n"
+                   "    add a0, a0, a0\n    ret\n")
+        out.append(f"main:\n    li t0, 3\n    li a0, 0\nloop:\n{d}\n    addi a0, a0, 2\n    addi t0, t0, -1\n    bnez t0, loop\n"
+                   "    li a7, 1\n    ecall\n    li a7, 10\n    ecall\n")
+        out.append(f"main:\n    li a0, 1\n    j over\n    li a0, 2\nover:\n{d}\n    li a7, 1\n    ecall\n    li a7, 10\n    ecall\n")
+    return out
+
+
 def handler_layouts(rng):
     """Where an interrupt-vector installation (`la rX, h` + `csrrw _, utvec, rX`) can stand: on the
     program's main path, in a called function, after a return / behind a jump (code nothing
@@ -293,7 +325,7 @@ def alloca_programs(rng, n=6):
 
 
 def gen_programs(rng, n, sloppy_choices=(0, 0.1, 0.3), multi=0.15):
-    out = list(CORPUS) + branch_matrix() + ecall_matrix() + arith_matrix(rng) + alloca_programs(rng) + handler_layouts(rng) + early_out_programs(rng) + entry_by_jump_programs(rng) + [long_chain_program(rng)]
+    out = list(CORPUS) + branch_matrix() + ecall_matrix() + arith_matrix(rng) + alloca_programs(rng) + handler_layouts(rng) + early_out_programs(rng) + entry_by_jump_programs(rng) + [long_chain_program(rng), slow_convergence_program(rng), slow_convergence_program(rng)] + label_then_directive_programs(rng)
     for _ in range(max(4, n // 10)):
         out.append(handler_program(rng))
         out.append(backward_layout(rng))
